@@ -347,7 +347,27 @@ let p2p_cmd (toks : string list) : string option =
        | _ -> None)
   | _ -> None
 
-let handlers : (string list -> string option) list ref = ref [index_cmd; tree_cmd; exec_cmd; exectsm_cmd; execper_cmd; execcnt_cmd; mem_cmd; p2p_cmd]
+let loc_cmd (toks : string list) : string option =
+  match toks with
+  | [("loc" | "locnd") as op; fmt; h; c; w; p] ->
+      let (prec, emax) = if fmt = "64" then (iz 53, iz 1024) else (iz 24, iz 128) in
+      let dec x = sf_of_bits prec emax (z_of_string x) in
+      let f = if op = "loc" then locate1 else locate1_ndebug in
+      (match f prec emax (z_of_string h) (dec c) (dec w) (dec p) with
+       | LocCoord k -> Some (zs k)
+       | LocAssert -> Some "ASSERT"
+       | LocUndefined -> Some "UNDEFINED")
+  | [("loc" | "locnd") as op; fmt; h; c0; w0; p0; c1; w1; p1] ->
+      let (prec, emax) = if fmt = "64" then (iz 53, iz 1024) else (iz 24, iz 128) in
+      let dec x = sf_of_bits prec emax (z_of_string x) in
+      let f = if op = "loc" then locate1 else locate1_ndebug in
+      (match f prec emax (z_of_string h) (dec c0) (dec w0) (dec p0), f prec emax (z_of_string h) (dec c1) (dec w1) (dec p1) with
+       | LocCoord a, LocCoord b -> Some (zs (box (nat_of_int 2) [a; b]))
+       | LocAssert, _ | _, LocAssert -> Some "ASSERT"
+       | _ -> Some "UNDEFINED")
+  | _ -> None
+
+let handlers : (string list -> string option) list ref = ref [loc_cmd; index_cmd; tree_cmd; exec_cmd; exectsm_cmd; execper_cmd; execcnt_cmd; mem_cmd; p2p_cmd]
 
 let () =
   let ic = open_in Sys.argv.(1) in
